@@ -1062,6 +1062,13 @@ const SCENARIOS: &[&str] = &[
     "begin-in-body",
     "no-final-newline",
     "crlf",
+    // PEM bundles: the key stored in the same file as a certificate (`cat client.crt client.key`,
+    // `openssl pkcs12 -nodes` output), given as the certificate file, the CA file or both
+    "bundle-cert-key",
+    "bundle-key-cert",
+    "bundle-as-ca",
+    "bundle-for-both",
+    "bundle-chain-key",
 ];
 
 /// (ca, cert, key) paths for a scenario; damaged files are written below `dir`
@@ -1135,6 +1142,26 @@ fn scenario_files(dir: &PathBuf, sc: &str, key: &str) -> (String, String, String
         ),
         "no-final-newline" => (ca, certp, damaged(text.trim_end().to_string())),
         "crlf" => (ca, certp, damaged(lines.join("\r\n") + "\r\n")),
+        "bundle-cert-key" | "bundle-key-cert" | "bundle-as-ca" | "bundle-for-both"
+        | "bundle-chain-key" => {
+            let cert_text = std::fs::read_to_string(&certp).unwrap();
+            let ca_text = std::fs::read_to_string(&ca).unwrap();
+            let b = match sc {
+                "bundle-key-cert" => format!("{text}{cert_text}"),
+                "bundle-as-ca" => format!("{ca_text}{text}"),
+                "bundle-chain-key" => {
+                    format!("{cert_text}{ca_text}Bag Attributes\n    friendlyName: client\n{text}")
+                }
+                _ => format!("{cert_text}{text}"),
+            };
+            let p = damaged(b);
+            match sc {
+                "bundle-as-ca" => (p, certp, keyp),
+                "bundle-for-both" => (ca, p.clone(), p),
+                "bundle-key-cert" => (ca, certp, p),
+                _ => (ca, p, keyp),
+            }
+        }
         _ => (ca, certp, keyp),
     }
 }
@@ -1151,7 +1178,11 @@ fn run_agent(
     let dir = out.join("logs-pem");
     std::fs::create_dir_all(&dir).unwrap();
     let (ca, cert, keyp) = scenario_files(&dir, sc, key);
-    let port = if sc == "ok" { start_tls_peer(3) } else { 1 };
+    let port = if sc == "ok" || sc.starts_with("bundle") {
+        start_tls_peer(3)
+    } else {
+        1
+    };
     let logfile = dir.join(format!("agent-{idx}.log"));
     let _ = std::fs::remove_file(&logfile);
     let mut cmd = Command::new(agent);
